@@ -305,6 +305,27 @@ func run(e *core.Env) {
 			}
 			what = "appendix-extended"
 		}
+		// Half of the time the appendix is not changed on the wire but the way a
+		// relay does it: parse, SetAppendixData (possibly growing the buffer), re-serialise.
+		if tp.Chance(1, 2) {
+			rb := C.Inst.Builder
+			ps := rb.GetPooledSlice(len(w2) + peering.FrameOffset + peering.FrameOverhead)
+			copy(ps[peering.FrameOffset:], w2)
+			if rf, perr := rb.ParseFrame(ps[peering.FrameOffset:peering.FrameOffset+len(w2)], ps, peering.FrameOffset); perr == nil {
+				na := tp.Bytes([]int{0, 1, 100, 700, 2000, 10000}[tp.Intn(6)])
+				if tp.Chance(1, 3) {
+					rf = rf.Clone()
+				}
+				if aerr := rf.SetAppendixData(na); aerr == nil {
+					rf.ReduceTTL(1)
+					if d, derr := rf.FrameDataWithMargins(0, 0); derr == nil {
+						mut = append([]byte(nil), d...)
+						what = fmt.Sprintf("appendix set to %d bytes by a relay", len(na))
+					}
+				}
+				rf.ReturnToPool()
+			}
+		}
 		var got []byte
 		var err error
 		if e.Guard("panic-on-hop-mutated-frame", func() { got, err = unsealAt(B.Inst.Builder, sessBA, mut) }) {
